@@ -239,10 +239,13 @@ def series_cases(draw):
     return {'h': h, 'series': group, 'perturbations': perts}
 
 
-def run_gsto(collection, h):
+def run_gsto(collection, h, arrays=None):
+    """arrays: optional list of (x, y) ndarray pairs to pass instead of
+    fresh ones (a caller keeps its interval objects between two calls)."""
     fn = tree.mod('fit_offsets').get_series_time_offsets
-    series = [(np.array(s['x'], dtype='float64'),
-               np.array(s['y'], dtype='float64')) for s in collection]
+    series = arrays or [(np.array(s['x'], dtype='float64'),
+                         np.array(s['y'], dtype='float64'))
+                        for s in collection]
     return guarded(fn, series, h)
 
 
